@@ -10,6 +10,7 @@ import (
 	"os"
 	"os/exec"
 	"path/filepath"
+	"reflect"
 	"strconv"
 	"strings"
 	"syscall"
@@ -33,6 +34,7 @@ type c06Case struct {
 	Torn    int    `json:"torn,omitempty"` // first Torn pages of that write applied
 	Preload bool   `json:"preload"`
 	Image   []byte `json:"image,omitempty"` // the file image itself (write order depends on Go map iteration order)
+	Retry   bool   `json:"retry,omitempty"` // the violation is about the run AFTER the crash (replayed by the whole traced job)
 }
 
 func (c c06Case) sig() string {
@@ -441,7 +443,14 @@ func c06Process(ctx *rt.Ctx, big bool, n int) []*rt.Violation {
 // k-th system call that changes file content or names below the output directory or the temporary directory, for every
 // k until a run completes: crash points of the PROCESS, whoever issues the call (bbolt, a copy loop, a rename ...).
 // otherTmp: TMPDIR is on another file system than the output (a rename across them is not possible).
-func c06Traced(ctx *rt.Ctx, big bool, n int, otherTmp bool) []*rt.Violation {
+func c06Traced(ctx *rt.Ctx, big bool, n int, otherTmp bool, sigName string) []*rt.Violation {
+	opt := ptk.Options{}
+	switch sigName {
+	case "int":
+		opt = ptk.Options{Signal: syscall.SIGINT, CountReads: true}
+	case "term":
+		opt = ptk.Options{Signal: syscall.SIGTERM, CountReads: true}
+	}
 	bin := os.Getenv("VCHECK_UPDOG_BIN")
 	if bin == "" {
 		rt.Harnessf("VCHECK_UPDOG_BIN not set")
@@ -473,9 +482,12 @@ func c06Traced(ctx *rt.Ctx, big bool, n int, otherTmp bool) []*rt.Violation {
 	if otherTmp {
 		mode += "-tmp-on-other-fs"
 	}
+	if sigName != "" {
+		mode += "-sig" + sigName
+	}
 	env := append(os.Environ(), "TMPDIR="+tmp)
 	run := func(out string, k int) ptk.Result {
-		r, err := ptk.Run(append(append([]string{}, args...), "-o", out, csv), env, []string{dir + "/", tmp + "/"}, k, filepath.Join(dir, "stdout"))
+		r, err := ptk.RunOpt(append(append([]string{}, args...), "-o", out, csv), env, []string{dir + "/", tmp + "/"}, k, filepath.Join(dir, "stdout"), opt)
 		if err != nil {
 			rt.Harnessf("traced run: %v", err)
 		}
@@ -500,6 +512,34 @@ func c06Traced(ctx *rt.Ctx, big bool, n int, otherTmp bool) []*rt.Violation {
 	idx.Close()
 	exp.complete, _ = os.ReadFile(full)
 	os.Remove(full)
+	// what the operator does after a crash: remove the partial output, correct the input, run the command again. The
+	// second input has other values; nothing the first run left behind (temporary files next to the output or in
+	// TMPDIR) may leak into the second index.
+	csv2 := filepath.Join(dir, "in2.csv")
+	var b2 bytes.Buffer
+	b2.WriteString("v,k\n")
+	for i := 0; i < n+2; i++ {
+		// the same values as in the first input, on other rows (what is left of the first run would show in their counts)
+		fmt.Fprintf(&b2, "%d,%s\n", (i*7+3)%1200, []string{"c", "d"}[i%2])
+	}
+	os.WriteFile(csv2, b2.Bytes(), 0o644)
+	var exp2 *c06Expect
+	{
+		full2 := filepath.Join(dir, "full2.updog")
+		cmd := exec.Command(args[0], append(append([]string{}, args[1:]...), "-o", full2, csv2)...)
+		cmd.Env = env
+		if o, err := cmd.CombinedOutput(); err != nil {
+			rt.Harnessf("complete run on the second input failed: %v %s", err, o)
+		}
+		idx2, err := ix.Open(full2, false, nil)
+		if err != nil {
+			rt.Harnessf("second complete index does not open: %v", err)
+		}
+		exp2 = &c06Expect{schema: schemaOf(idx2)}
+		exp2.probes, _ = c06Probe(idx2, exp2.schema)
+		idx2.Close()
+		os.Remove(full2)
+	}
 	var vs []*rt.Violation
 	seenClass := map[string]bool{}
 	out := filepath.Join(dir, "out.updog")
@@ -508,7 +548,7 @@ func c06Traced(ctx *rt.Ctx, big bool, n int, otherTmp bool) []*rt.Violation {
 		// leftovers of the previous run in the temporary directory
 		if ents, err := os.ReadDir(tmp); err == nil {
 			for _, e := range ents {
-				if p := filepath.Join(tmp, e.Name()); p != csv && p != out {
+				if p := filepath.Join(tmp, e.Name()); p != csv && p != csv2 && p != out && !strings.HasSuffix(p, "/stdout") {
 					os.RemoveAll(p)
 				}
 			}
@@ -521,12 +561,66 @@ func c06Traced(ctx *rt.Ctx, big bool, n int, otherTmp bool) []*rt.Violation {
 			}
 			ctx.Cov.Add("distinct_nontrivial", int64(k-1))
 			ctx.Cov.Add("histories", 1)
-			ctx.Cov.Sample(1, map[string]any{"mode": mode, "rows": n, "kill_points": k - 1, "calls_of_a_complete_run": trimCalls(r0.Calls, dir, tmp)})
+			ctx.Cov.Note(fmt.Sprintf("traced_calls %s rows=%d", mode, n), map[string]any{"kill_points": k - 1, "calls_of_a_complete_run": trimCalls(r0.Calls, dir, tmp)})
 			return vs
 		}
 		ctx.Cov.Add("traced_sigkilled_processes", 1)
 		ctx.Cov.Add("crash_points", 1)
 		img, rerr := os.ReadFile(out)
+		// the retry (only after a kill: an interrupted process cleans up after itself or not, both are fine here)
+		if sigName == "" && !seenClass["retry"] {
+			os.Remove(out)
+			cmd := exec.Command(args[0], append(append([]string{}, args[1:]...), "-o", out, csv2)...)
+			cmd.Env = env
+			o, err := cmd.CombinedOutput()
+			ctx.Cov.Add("retries_after_crash", 1)
+			msg := ""
+			if err != nil {
+				msg = fmt.Sprintf("the command run again after the crash (partial output removed, corrected input) fails: %v %s", err, trunc(string(o)))
+			} else if idx, err := ix.Open(out, false, nil); err != nil {
+				msg = fmt.Sprintf("the index written by the run after the crash does not open: %v", err)
+			} else {
+				got, pm := c06Probe(idx, exp2.schema)
+				// values of the first input that the second one does not have: nothing may hold for them
+				if pm == "" {
+					in2 := map[string]bool{}
+					for i := 0; i < n+2; i++ {
+						in2[strconv.Itoa((i*7+3)%1200)] = true
+					}
+					for i := 0; i < n && pm == ""; i++ {
+						if v := strconv.Itoa(i % 1200); !in2[v] {
+							res, err := idx.Execute(&updog.Query{Expr: model.Eq("v", v).Updog()})
+							if err != nil || res.Count != 0 {
+								pm = fmt.Sprintf("v=%q (a value of the first, crashed run's input only) counts %v rows (error %v)", v, res, err)
+							}
+						}
+					}
+				}
+				idx.Close()
+				if pm != "" {
+					msg = "the index written by the run after the crash: " + pm
+				} else if !reflect.DeepEqual(schemaOfFile(out), exp2.schema) {
+					msg = fmt.Sprintf("the index written by the run after the crash has schema %v, a clean run gives %v", trunc(fmt.Sprint(schemaOfFile(out))), trunc(fmt.Sprint(exp2.schema)))
+				} else {
+					for i := range exp2.probes {
+						if i >= len(got) || got[i] != exp2.probes[i] {
+							msg = fmt.Sprintf("the index written by the run after the crash answers probe #%d with %s; a clean run answers %s", i, trunc(got[i]), trunc(exp2.probes[i]))
+							break
+						}
+					}
+				}
+			}
+			if msg != "" {
+				seenClass["retry"] = true
+				last := ""
+				if len(r.Calls) > 0 {
+					last = " (first run killed before: " + trimCalls(r.Calls[len(r.Calls)-1:], dir, tmp)[0] + ")"
+				}
+				c := c06Case{Mode: mode, N: n, Write: k, Retry: true}
+				vs = append(vs, rt.NewViolation("C06", "retry", c.sig()+" retry", c, "%s%s", msg, last))
+			}
+			os.Remove(out)
+		}
 		if rerr != nil {
 			ctx.Cov.Add("images_absent", 1)
 			continue
@@ -555,6 +649,15 @@ func c06Traced(ctx *rt.Ctx, big bool, n int, otherTmp bool) []*rt.Violation {
 	return nil
 }
 
+func schemaOfFile(p string) [][]string {
+	idx, err := ix.Open(p, false, nil)
+	if err != nil {
+		return nil
+	}
+	defer idx.Close()
+	return schemaOf(idx)
+}
+
 func trimCalls(calls []string, dir, tmp string) []string {
 	var out []string
 	for i, c := range calls {
@@ -573,6 +676,7 @@ type c06Args struct {
 	N       int    `json:"n"`
 	Path    string `json:"path,omitempty"`
 	Preload bool   `json:"preload,omitempty"`
+	Sig     string `json:"sig,omitempty"` // traced modes: "" SIGKILL, "int" SIGINT, "term" SIGTERM (also while the input is read)
 }
 
 func c06Worker(ctx *rt.Ctx, job *rt.Job) []*rt.Violation {
@@ -591,7 +695,7 @@ func c06Worker(ctx *rt.Ctx, job *rt.Job) []*rt.Violation {
 	case "create-big":
 		return c06Process(ctx, true, a.N)
 	case "traced", "traced-big":
-		return c06Traced(ctx, a.Mode == "traced-big", a.N, a.Preload)
+		return c06Traced(ctx, a.Mode == "traced-big", a.N, a.Preload, a.Sig)
 	}
 	return c06InProcess(ctx, a.Mode, a.N)
 }
@@ -626,12 +730,16 @@ func c06Run(ctx *rt.Ctx) []*rt.Violation {
 				b, _ := json.Marshal(c06Args{Mode: mode, N: n, Preload: other})
 				jobs = append(jobs, rt.Job{Name: mode, NShards: 1, Args: b})
 			}
+			for _, sig := range []string{"int", "term"} {
+				b, _ := json.Marshal(c06Args{Mode: mode, N: n, Sig: sig})
+				jobs = append(jobs, rt.Job{Name: mode, NShards: 1, Args: b})
+			}
 		}
 	}
 	outs := rt.RunJobs(ctx, jobs, rt.SpawnOpt{})
 	vs := rt.Collect(ctx, outs, nil)
 	ctx.Cov.Note("sizes", ns)
-	ctx.Cov.Note("rule", "for every history (writer mode x size): the file content immediately before every write issued to the output file (all content changes go through bbolt's write function; the file is mapped read-only) and page-granular torn variants of multi-page writes are materialised and opened on demand and preloaded: the image must be rejected with an error or answer schema / every value count / every negated count / group-by per column exactly like the complete index; the same with a real `updog create [-b]` that SIGKILLs itself before its k-th write for every k; and the unmodified `updog create [-b]` under ptrace, its process group killed before its k-th file-changing system call (write, pwrite, rename, unlink, truncate, creating open, copy_file_range, sendfile ... on files below the output or temporary directory) for every k, with TMPDIR next to the output and on another file system; distinct_nontrivial = number of distinct crash points (write indexes)")
+	ctx.Cov.Note("rule", "for every history (writer mode x size): the file content immediately before every write issued to the output file (all content changes go through bbolt's write function; the file is mapped read-only) and page-granular torn variants of multi-page writes are materialised and opened on demand and preloaded: the image must be rejected with an error or answer schema / every value count / every negated count / group-by per column exactly like the complete index; the same with a real `updog create [-b]` that SIGKILLs itself before its k-th write for every k; and the unmodified `updog create [-b]` under ptrace, its process group killed before its k-th file-changing system call (write, pwrite, rename, unlink, truncate, creating open, copy_file_range, sendfile ... on files below the output or temporary directory) for every k, with TMPDIR next to the output and on another file system; after a kill the command is run again on a corrected input with whatever the first run left behind still in place (the second index must be the clean one); the same points (plus every read of the input) with SIGINT and SIGTERM instead of SIGKILL; distinct_nontrivial = number of distinct crash points (write indexes)")
 	ctx.Cov.Add("distinct_outcomes", int64(ctx.Cov.SetLen("outcomes")))
 	ctx.Assumef("process death only: un-synced page cache is not lost (the property speaks of the process dying); fdatasync and ftruncate are not separate crash points (truncate only appends zero pages)")
 	ctx.Assumef("bbolt's own transaction atomicity is trusted, and exercised by the torn-write images")
@@ -643,8 +751,18 @@ func c06Replay(ctx *rt.Ctx, v *rt.Violation) *rt.Violation {
 	if err := json.Unmarshal(v.Case, &c); err != nil {
 		rt.Harnessf("case: %v", err)
 	}
+	if c.Retry {
+		// the whole traced job again; it reports the first retry that goes wrong
+		big := strings.Contains(c.Mode, "-big")
+		for _, v := range c06Traced(ctx, big, c.N, strings.Contains(c.Mode, "other-fs"), "") {
+			if v.Kind == "retry" {
+				return v
+			}
+		}
+		return nil
+	}
 	var exp *c06Expect
-	if strings.HasPrefix(c.Mode, "create") {
+	if strings.HasPrefix(c.Mode, "create") || strings.HasPrefix(c.Mode, "traced") {
 		// expectation from an in-process build of the same rows
 		exp = c06Expectation(ctx, func(out string) error {
 			w := updog.NewIndexWriter(out)
